@@ -45,8 +45,20 @@ class WildcardBinFactory(object):
         return (value,mask)
     
     @classmethod
-    def valmask2binlist(cls, value, mask):
-        """Converts value/mask representation to a list of bin specifications"""
+    def str2width(cls, val) -> int:
+        """Number of bits spelled out by a wildcard string"""
+        digits = len(val[2:].replace('_', ''))
+        if val.startswith("0o") or val.startswith("0O"):
+            return 3*digits
+        elif val.startswith("0x") or val.startswith("0X"):
+            return 4*digits
+        else:
+            return digits
+    
+    @classmethod
+    def valmask2binlist(cls, value, mask, width=-1):
+        """Converts value/mask representation to a list of bin specifications.
+        Wildcard bits above the highest compared bit are expanded up to 'width' bits"""
         
         n_bits = 0
         
@@ -55,12 +67,12 @@ class WildcardBinFactory(object):
 
         total_mask_bits = 0
         directives = []
-        while mask_t != 0:
+        while mask_t != 0 or bit_i < width:
             if (mask_t & 1) == 0:
                 # Collect this grouping
                 group_start_bit = bit_i
                 group_n_bits = 0
-                while (mask_t & 1) == 0:
+                while (mask_t & 1) == 0 and (mask_t != 0 or bit_i < width):
                     group_n_bits += 1
                     total_mask_bits += 1
                     mask_t >>= 1
